@@ -497,6 +497,15 @@ func (s *Server) cmdEvalUnified(scriptIsSha bool, msg *Message) (res resp.Value,
 			"DEADLINE": luaDeadline,
 			"EVAL_CMD": lua.LString(msg.Command()),
 		})
+	// clear them on every way out, also when the script is unknown or does
+	// not compile: the state goes back to the pool
+	defer luaSetRawGlobals(
+		luaState, map[string]lua.LValue{
+			"KEYS":     lua.LNil,
+			"ARGV":     lua.LNil,
+			"DEADLINE": lua.LNil,
+			"EVAL_CMD": lua.LNil,
+		})
 
 	compiled, ok := s.luascripts.Get(shaSum)
 	var fn *lua.LFunction
@@ -520,13 +529,6 @@ func (s *Server) cmdEvalUnified(scriptIsSha bool, msg *Message) (res resp.Value,
 		s.luascripts.Put(shaSum, fn.Proto)
 	}
 	luaState.Push(fn)
-	defer luaSetRawGlobals(
-		luaState, map[string]lua.LValue{
-			"KEYS":     lua.LNil,
-			"ARGV":     lua.LNil,
-			"DEADLINE": lua.LNil,
-			"EVAL_CMD": lua.LNil,
-		})
 	if err := luaState.PCall(0, 1, nil); err != nil {
 		if strings.Contains(err.Error(), "context deadline exceeded") {
 			msg.Deadline.Check()
